@@ -44,6 +44,16 @@ let handle line =
     let fuel = if fuel = "-" then ancestor_fuel head else nat_of_int (int_of_string fuel) in
     let r = find_common_ancestor ov head fuel in
     show_outcome r ^ " | " ^ String.concat " " (List.rev !probes)
+  | [ ["R"; code; size; env; argok] ] ->
+    (* R code(0..7|8=unknown) size env(x | id:0/1) argok -> drop|ignore|deliver|reply|feedblock|announce|pooladd ; no pending calls *)
+    let c = (match code with "0" -> CGetStatus | "1" -> CNewBlockID | "2" -> CNewBlock | "3" -> CNewTx | "4" -> CGetBlockByID
+                           | "5" -> CGetBlockIDByNumber | "6" -> CGetBlocksFromNumber | "7" -> CGetTxs | _ -> CUnknown) in
+    let e = (if env = "x" then None else match String.split_on_char ':' env with
+        | [id; r] -> Some (n_of_hex id, bool_of_tok r) | _ -> failwith "bad env") in
+    let m = { m_code = c; m_size = n_of_hex size; m_env = e; m_arg_ok = bool_of_tok argok } in
+    (match serve (fun _ -> None) mcode_eqb m with
+     | RDrop -> "drop" | RIgnore -> "ignore" | RDeliver -> "deliver" | RReply -> "reply"
+     | RFeedBlock -> "feedblock" | RAnnounce -> "announce" | RPoolAdd -> "pooladd")
   | ["D"; from; fuel] :: answers ->
     let answers = List.map parse_answer (List.filter (fun a -> a <> []) answers) in
     let (l, st) = download_script answers (n_of_hex from) (nat_of_int (int_of_string fuel)) in
